@@ -14,7 +14,7 @@ PROVED = [CP.do_compute_1, CP.do_compute_2, P.fix_output_chunk, P.fix_output_oth
           CH.continuity_check, PR.tmp_init, PO.spy_save_chunk, PO.spy_receive, PO.spy_close, PO.ack_msg_produced, PO.message_may_come, PO.post_office_read, GI.get_iter]
 
 PROPERTY = Property(
-    "C01", "proof",
+    "C01", "other",
     contracts=PROVED,
     standins=[StandIn("whole pipeline == whole-run computation over chunkings / processors / settings / stored subsets (real Context)",
                       B.pipeline, B.pipeline.harness, budget={"quick": 200, "thorough": 3000}),
